@@ -245,6 +245,7 @@ OpsC16 ==   \* device grant state machine
   \cup {DevDecide(d, dec) : d \in Devs, dec \in {"accept", "accept_fresh", "reject"}}
   \cup (IF CanMint THEN {DevPoll(c, a, d) : d \in Devs, c \in {"A", "P"}, a \in {"ok", "bad"}} ELSE {})
   \cup (IF CanMint THEN {DevPoll("P", "hdr_victim", d) : d \in Devs} ELSE {})     \* a public client names itself in the header and the flow's client in the body
+  \cup (IF CanMint THEN {DevPollForged(st.S.dev[d].client, "ok", d, how) : d \in {x \in Devs : st.S.dev[x].present}, how \in {"sig_only", "sig_junk"}} ELSE {})
   \cup {DevPoll(st.S.dev[d].client, "ok", d) : d \in {x \in Devs : ~st.S.dev[x].present}}
   \cup (IF CanMint THEN {Refresh(st.S.rt[j].client, "ok", j, <<>>, <<>>) : j \in RTs} ELSE {})
   \cup TickOps
